@@ -98,8 +98,21 @@ func main() {
 		}
 		overlay[fname] = dst
 	}
+	// the one place where the hooks reach into the package: a fresh instance of its own cache.
+	// Prefer the constructor, fall back to a clone of the default cache, and do without if a
+	// refactoring removed both (the checks then use caller-side caches only).
+	cacheBody := "return nil"
+	switch {
+	case isFunc(p.Types.Scope().Lookup("defaultResolutionCache")):
+		cacheBody = "return defaultResolutionCache()"
+	case isFunc(p.Types.Scope().Lookup("cacheOrDefault")):
+		cacheBody = "return cacheOrDefault(nil)"
+	default:
+		st.Warnings = append(st.Warnings, "neither defaultResolutionCache nor cacheOrDefault exists: no library cache instance for the checks")
+	}
+	hooks := strings.Replace(hooksSrc, "return defaultResolutionCache()", cacheBody, 1)
 	hp := filepath.Join(out, "zz_verif_hooks.go")
-	if err := os.WriteFile(hp, []byte(hooksSrc), 0o644); err != nil {
+	if err := os.WriteFile(hp, []byte(hooks), 0o644); err != nil {
 		die("%v", err)
 	}
 	overlay[filepath.Join(repo, "zz_verif_hooks.go")] = hp
@@ -115,6 +128,11 @@ func main() {
 	for _, w := range st.Warnings {
 		fmt.Println("instrument: warning:", w)
 	}
+}
+
+func isFunc(o types.Object) bool {
+	_, ok := o.(*types.Func)
+	return ok
 }
 
 func (fe *fileEdits) apply() []byte {
